@@ -432,10 +432,12 @@ def spec(line):
 
 
 def impl_for(_line):
-    return impl
+    return impl_derived if _line.startswith('bd.derived') else impl
 
 
 def spec_for(line):
+    if line.startswith('bd.derived'):
+        return spec_derived
     k = kind_of(op_of(line))
     if k == 'exact':
         return spec_exact
@@ -525,6 +527,70 @@ def gen_float_points(rng, n, symmetric=False):
 
 def flat(pts):
     return [x for p in pts for x in p]
+
+
+
+# ---- support stream (no model): bounds of *derived* collections after the receiver's cached bounds were read -----------
+# "the bounds of a multi-shape or collection are the union of its members' bounds" must also hold for collections
+# obtained from another one (slice, filter, +, copy, split) whose cached bounds had already been computed
+# (seeded change C09-m3: a slice built by copy.copy() dragged the parent's cached bounds along).
+
+def impl_derived(line):
+    import random as _r
+    from datetime import datetime, timedelta, timezone
+    from geostructures import Coordinate, FeatureCollection, GeoBox, GeoLineString, GeoPoint, Track
+    from geostructures.time import TimeInterval
+    _op, kind, how, seed = line.split()
+    rng = _r.Random(int(seed))
+    t0 = datetime(2021, 3, 1, tzinfo=timezone.utc)
+
+    def member(i):
+        x, y = rng.randint(-400, 400) / 8, rng.randint(-300, 300) / 8
+        dt = t0 + timedelta(hours=rng.randint(0, 40))
+        if rng.random() < 0.3:
+            dt = TimeInterval(dt, dt + timedelta(hours=rng.randint(1, 30)))
+        k = rng.random()
+        if k < 0.5:
+            return GeoPoint(Coordinate(x, y), dt=dt, properties={'i': i})
+        if k < 0.75:
+            return GeoBox(Coordinate(x, y + 1), Coordinate(x + 2, y), dt=dt, properties={'i': i})
+        return GeoLineString([Coordinate(x, y), Coordinate(x + 1, y + 3)], dt=dt, properties={'i': i})
+    shapes = [member(i) for i in range(rng.randint(2, 9))]
+    col = (Track if kind == 'T' else FeatureCollection)(shapes)
+    col.bounds                                   # the receiver's bounds are cached from here on
+    cut = t0 + timedelta(hours=rng.randint(5, 35))
+    if how == 'slice':
+        r = col[cut:] if rng.random() < 0.5 else col[:cut]
+    elif how == 'fdt':
+        r = col.filter_by_dt(TimeInterval(t0, cut))
+    elif how == 'fisect':
+        r = col.filter_by_intersection(GeoBox(Coordinate(-60, 40), Coordinate(10, -40)))
+    elif how == 'fprop':
+        r = col.filter_by_property('i', lambda v: v % 2 == 0)
+    elif how == 'add':
+        r = col + (Track if kind == 'T' else FeatureCollection)([member(99)])
+    elif how == 'copy':
+        r = col.copy()
+        r.geoshapes.append(member(98))
+        if kind == 'T':
+            r = Track(r.geoshapes)
+    elif how == 'convolve':
+        r = col.convolve_duplicate_timestamps()
+    elif how == 'journeys':
+        r = col.filter_impossible_journeys(rng.choice([50.0, 500.0, 5000.0]))
+    else:
+        raise ValueError(how)
+    members = list(r.geoshapes)
+    if not members:
+        return 'OK empty'
+    bs = [m.bounds for m in members]
+    want = (min(b[0] for b in bs), min(b[1] for b in bs), max(b[2] for b in bs), max(b[3] for b in bs))
+    got = tuple(r.bounds)
+    return 'OK' if got == want else f'STALE bounds={got} union-of-members={want}'
+
+
+def spec_derived(_line):
+    return 'OK'
 
 
 def check(run):
@@ -701,6 +767,17 @@ def check(run):
                      f'bd.rectR {enc(c[0], c[1], inner, r, amin, amax)}']
     go('curved-bounds', lines_cb, compare=cmp_bounds_float, why=why_cbounds)
     go('np-rectangle-has-bounds-curved', lines_rc, why=why_rect_curved, model=False)
+
+    # ---- derived collections: union of member bounds after the receiver's cached bounds were read (support, no model)
+    lines_d = []
+    for i in range(run.scale(160, 4000)):
+        kind = 'T' if i % 2 else 'F'
+        hows = ['fdt', 'fisect', 'fprop', 'add', 'copy'] + (['slice', 'convolve', 'journeys'] if kind == 'T' else [])
+        lines_d.append(f'bd.derived {kind} {hows[(i // 2) % len(hows)]} {rng.randrange(10 ** 9)}')
+    run.run_cases('np-derived-collection-bounds', lines_d, impl_derived, spec_derived, model=False,
+                  spec_compare=lambda a, sp: a.startswith('OK'),
+                  known_key=lambda ln, a, sp: 'derived-collection.bounds/' + ln.split()[2] + '/stale',
+                  tag=lambda ln, a: ['derived:' + ln.split()[1] + ':' + ln.split()[2] + (':empty' if a.endswith('empty') else '')])
 
     return run.finish(
         rule='a case is one protocol line = one shape (or multi-shape / collection of 1-5 members, or polygon + seed): '
